@@ -144,6 +144,11 @@ func (f *Subseq) getArgs(s *slip.Scope, args slip.List, depth int) (start, end i
 		}
 	}
 	switch ta := args[0].(type) {
+	case nil:
+		if 0 < start || 0 < end {
+			slip.ErrorPanic(s, depth, "indices %d and %d are out of bounds for list of length 0", start, end)
+		}
+		end = 0
 	case slip.List:
 		if end < 0 {
 			end = len(ta)
